@@ -17,6 +17,10 @@ every reading — within one UTC day, across midnight / month end / leap day / y
 services keep their own clock: S3 verifies `x-amz-date` against it (15-minute window) next to the full SigV4 check, B2 ages
 tokens (24 h).  The Lean S3 model runs the same history *with the clock readings* (`S3.runT`, `s3_timed_history_refines`).
 
+Object-level commands (`objcmd_stream`, `harness/impl/objcmd.py`): `upload_objects` / `download_objects` / `list_objects` / `delete_objects` of a
+real `Repository` (memory backend, real local backend) run in worker processes from a scratch working directory on generated scenarios, against the
+compiled model `store.cmd.run` (`ObjCmd.lean`); oracle = the statements of the object-command theorems on the real results.
+
 Direct oracle: the property's own statement — every return value of every real adapter equals what a plain Python dict gives.
 Main histories stay inside the region the theorems cover (see `*_ok` below, mirrored from the hypotheses in
 Properties/C13.lean); *frontier probes* exercise each excluded input class on the real code and report what they find with a
@@ -1292,6 +1296,94 @@ def pathlib_ties(ctx, r, n):
     out.count('pathlib-cases', len(cases))
 
 
+# ------------------------------------------------------------------------------------------------ the object-level commands (ObjCmd.lean)
+def objcmd_stream(ctx, r, n):
+    """upload_objects / download_objects / list_objects / delete_objects of a REAL Repository (memory backend, sync and coroutine flavour, and the
+    real local backend) on generated scenarios, each run in a worker process from a scratch working directory; tie = the compiled model
+    `store.cmd.run` on the same scenario (return values, local trees, backend calls, chunk sizes, final objects); direct oracle = the statements of
+    `upload_skip_existing_preserves`, `download_skip_existing_preserves`, `list_objects_spec`, `delete_objects_spec`, `upload_then_download_roundtrip`
+    on the real results."""
+    import multiprocessing as mp
+    from ..impl import objcmd
+    out = ctx.out
+    cases = [objcmd.gen_case(r, ['mem', 'amem', 'local'][i % 3]) for i in range(n)]
+    probes = objcmd.probe_cases()
+    allc = cases + [c for _, c in probes]
+    with mp.get_context('fork').Pool(min(8, os.cpu_count() or 4)) as pool:
+        observed = pool.map(objcmd.run_case_safe, allc, chunksize=2)
+    live = [(c, o) for c, o in zip(allc, observed) if 'crash' not in o]
+    for c, o in zip(allc, observed):
+        if 'crash' in o:
+            out.disagreement('objcmd: the scenario could not be run on the real code', {'kind': 'objcmd', 'case': c, 'crash': o['crash'], 'tb': o.get('tb')})
+    replies = ctx.drv.ask_many([objcmd.model_request(c, o) for c, o in live]) if ctx.drv is not None else [None] * len(live)
+    samples, observations = [], {}
+    for k, ((c, o), m) in enumerate(zip(live, replies)):
+        is_probe = c.get('shape') == 'probe'
+        kinds = [x['cmd'] for x in c['cmds']]
+        nontrivial = len(set(kinds)) >= 2 and any(x.get('skip_existing') for x in c['cmds']) and any(
+            t.startswith(('put ', 'get ', 'del ')) for oc in o['cmds'] for t in oc['trace'])
+        out.case({'kind': 'objcmd', 'backend': c['backend'], 'concurrent': c['concurrent'], 'store': sorted(c['store']), 'cmds': c['cmds']}, nontrivial and not is_probe)
+        out.count('objcmd:backend:' + c['backend'])
+        out.count('objcmd:shape:' + c['shape'])
+        for x, oc in zip(c['cmds'], o['cmds']):
+            out.count('objcmd:cmd:' + x['cmd'] + (':skip-existing' if x.get('skip_existing') else '') + (':rate-limited' if x.get('rate_limit') else ''))
+            if oc['error']:
+                out.count('objcmd:error:' + x['cmd'] + ':' + oc['error'])
+            if x['cmd'] in ('download', 'list'):
+                out.count('objcmd:filter:' + ('prefix' if x['prefix'] else 'no-prefix') + ('+regex' if x['regex'] is not None else ''))
+            if x['cmd'] == 'download' and any(k2 in oc['pre'] for k2 in (oc['out'] or {}).get('names', [])):
+                out.count('objcmd:download:existing-file-met' + (':skip-existing' if x['skip_existing'] else ':overwrite'))
+            if x['cmd'] == 'upload' and x['skip_existing'] and any(t.startswith('exists ') and 'put ' + t[7:] not in oc['trace'] for t in oc['trace']):
+                out.count('objcmd:upload:existing-object-met')
+        replay = {'kind': 'objcmd', 'case': c}
+        if not is_probe:
+            bad, notes = objcmd.oracle(c, o)
+            for nt in notes:
+                out.count('objcmd:' + nt)
+            for sig, what in bad:
+                out.violation(sig, f'object commands on the {c["backend"]} backend: {what}', dict(replay, observed=o['cmds'][-1] if o['cmds'] else None))
+        else:
+            label = [lb for lb, pc in probes if pc is c][0]
+            last = o['cmds'][-1]
+            observations[label] = {'error': last['error'], 'out': last['out'], 'store': o['state'][:4]}
+            if 'victim_exists' in last:
+                observations[label]['local_file_outside_the_cache_still_exists'] = last['victim_exists']
+            out.count('objcmd:probe:' + label)
+        if m is not None and not c.get('no_tie'):
+            diffs = objcmd.compare(c, o, m)
+            if diffs:
+                out.disagreement('objcmd: model and implementation differ: ' + diffs[0][0], dict(replay, differences=[[a, b] for a, b in diffs[:4]]))
+            else:
+                out.traces_validated += 1
+        if nontrivial and len(samples) < 2:
+            samples.append({'backend': c['backend'], 'concurrent': c['concurrent'], 'cmds': [dict(x, tree=sorted(x['tree'])) if x['cmd'] == 'upload' else x for x in c['cmds']][:4]})
+    # the observed interleavings of the gathered upload tasks, replayed as schedules of the model's scheduler (`upload_interleaving_irrelevant`)
+    if ctx.drv is not None:
+        sreqs = [(c, x) for c, o in live if c.get('shape') != 'probe' for x in objcmd.schedule_requests(c, o)]
+        for (c, (i, req, want)), got in zip(sreqs, ctx.drv.ask_many([x[1] for _, x in sreqs])):
+            out.evaluations += 1
+            interleaved = any(a.split(' ', 1)[1] != b.split(' ', 1)[1] and a.startswith('exists') and b.startswith('exists') for a, b in zip(want['calls'], want['calls'][1:]))
+            out.count('objcmd:schedule:' + ('interleaved' if interleaved else 'task-after-task'))
+            if got != want:
+                out.disagreement(f'objcmd: observed order of the upload tasks\' backend calls (command #{i}) is not a complete schedule of the model with the same result',
+                                 {'kind': 'objcmd', 'case': c, 'command': i, 'model': got, 'impl': want})
+            else:
+                out.traces_validated += 1
+    # the naming rule of upload_objects on pure paths (pathlib / os.path.commonpath) against `objectName`
+    if ctx.drv is not None:
+        pairs = [objcmd.gen_name_pair(r) for _ in range(max(60, n))]
+        for (cwd, f), mr in zip(pairs, ctx.drv.ask_many([{'op': 'store.cmd.name', 'cwd': cwd, 'file': f} for cwd, f in pairs])):
+            out.evaluations += 1
+            real = objcmd.real_name(cwd, f)
+            if mr.get('name') != real:
+                out.disagreement('objcmd: object name derived by the model differs from pathlib', {'kind': 'objcmd-name', 'cwd': cwd, 'file': f, 'model': mr, 'impl': real})
+            else:
+                out.traces_validated += 1
+            out.count('objcmd:name:' + ('under-cwd' if f.startswith(cwd + '/') or not cwd else 'outside-cwd'))
+    out.extra['objcmd_samples'] = samples
+    out.extra['objcmd_observations_outside_the_theorems'] = observations
+
+
 # ------------------------------------------------------------------------------------------------ entry points
 def run(out, drv, info):
     _patch_sleeps()
@@ -1302,14 +1394,23 @@ def run(out, drv, info):
                 '(page size 1/2/3/1000, every root spelling, B2 token expiry by use count and by age) under a generated clock schedule (same day / across midnight, month end, '
                 'leap day, year end at a chosen operation / inside one call / hours and days apart / client clock off and jittering; the fake S3 checks x-amz-date against its own '
                 'clock) and on the Lean models (S3: with the clock readings); non-trivial = ≥ 6 operations, ≥ 2 distinct uploaded names, ≥ 1 listing and ≥ 1 delete; distinct = hash of '
-                '(universe, operations, page size, spelling)')
+                '(universe, operations, page size, spelling)'
+                + '; object-level commands: scenario = initial objects + 2…6 commands of a real Repository (memory backend sync / coroutine, real local backend) run in a worker '
+                'process from a scratch working directory: generated file trees, path arguments (directories, files, repeats, overlaps, relative / absolute / dotted spellings, outside the cwd, '
+                'missing), prefixes, regular expressions, skip_existing, rate limits (chunk sizes 1…1000 and the default), pre-existing files, confirmation answers, cache directory; '
+                'non-trivial = ≥ 2 command kinds, a skip_existing flag and at least one transfer or deletion')
     out.assumptions = ['the fake S3 / B2 services (harness/impl/fake_s3.py, fake_b2.py) follow the published protocols; server-side atomicity of PUT / upload is assumed',
                        'the operating system resolves every spelling of the repository location to the same directory; no symbolic links inside the repository',
                        'httpx, pathlib, os.path, xml.etree behave as modelled (validated by the differential runs only)',
                        'object names: non-empty segments, none equal to "." or ".."; local: no name ends in ".tmp" and no name is a directory prefix of another; B2: none of ? # % + \\ in names',
                        'B2 download of a name that is not live is excluded (unbounded re-authentication recursion, D9 / property C12)',
                        'the adapter\'s and the S3 service\'s clocks agree to within the service\'s 15-minute window (outside it every request is refused: compared with the model, no oracle); '
-                       'the adapter reads the time through the datetime / time names of its module (otherwise the history runs on the machine clock and is counted as not intercepted)']
+                       'the adapter reads the time through the datetime / time names of its module (otherwise the history runs on the machine clock and is counted as not intercepted)',
+                       'object-level commands (upload_objects / download_objects / list_objects / delete_objects): the gather over files / objects is modelled in list order '
+                       '(the theorems show the result does not depend on it for distinct names); files to upload lie under the working directory (names of files outside it can collide — '
+                       'Lean witness, probe); object names are canonical relative paths, none a directory prefix of another, also with respect to files already in the target / cache '
+                       'directory; the local trees do not change during a command; no existing empty directories or symbolic links on the local side; the rate limiter and progress '
+                       'wrappers are transparent (C20); the regular expression is handed to the model as its extension on the names of the scenario']
     try:
         r = rng_for(out.seed, 'C13')
         main_histories(ctx, r, 220 if quick else 3000, 4 if quick else 40)
@@ -1319,6 +1420,7 @@ def run(out, drv, info):
         atomic_upload_observations(ctx, rng_for(out.seed, 'C13-atomic'), 60 if quick else 1500)
         loop_ties(ctx, rng_for(out.seed, 'C13-loops'), 150 if quick else 2500)
         pathlib_ties(ctx, rng_for(out.seed, 'C13-pathlib'), 400 if quick else 6000)
+        objcmd_stream(ctx, rng_for(out.seed, 'C13-objcmd'), 300 if quick else 6000)
         sigs = {}
         for v in out.violations:
             sigs[v['sig']] = sigs.get(v['sig'], 0) + 1
@@ -1353,6 +1455,25 @@ def replay(path, drv):
                 else:
                     print(f'replay ({title}, {len(ops)} operations): operation #{i} {short(ops[i])}\n  observed {short(got[i])}\n  expected {short(exp[i])}')
                     rc = 1
+            return rc
+        if kind == 'objcmd':
+            import multiprocessing as mp
+            from ..impl import objcmd
+            with mp.get_context('fork').Pool(1) as pool:
+                o = pool.apply(objcmd.run_case_safe, (rp['case'],))
+            if 'crash' in o:
+                print('replay: scenario crashed:', o['crash'])
+                return 2
+            bad, _ = objcmd.oracle(rp['case'], o)
+            for sig, what in bad:
+                print('replay:', sig, '-', what)
+            rc = 1 if bad else 0
+            if drv is not None:
+                diffs = objcmd.compare(rp['case'], o, drv.ask(objcmd.model_request(rp['case'], o)))
+                for a, b in diffs:
+                    print('replay: model differs from implementation:', a, short(b))
+            if not bad:
+                print('replay: every command did what the theorems of the object-level commands state')
             return rc
         if kind == 's3loop':
             pages = [(p[0], [tuple(e) for e in p[1]]) for p in rp['pages']]
